@@ -6,6 +6,7 @@ import (
 	"errors"
 	"fmt"
 	"io"
+	"net"
 	"os"
 	"reflect"
 	"sync"
@@ -651,6 +652,9 @@ func (c *wsConn) setupPings() func() {
 		}
 		return nil
 	})
+	// the handlers run in the goroutine reading from this connection; WriteControl may be called
+	// concurrently with the writers holding writeLk
+	conn := c.conn
 	c.conn.SetPingHandler(func(appData string) error {
 		vhook("ka.ping", c)
 		// treat pings as pongs - this lets us register server activity even if it's too busy to respond to our pings
@@ -658,7 +662,15 @@ func (c *wsConn) setupPings() func() {
 		case c.pongs <- struct{}{}:
 		default:
 		}
-		return nil
+		// installing a ping handler replaces the default one, which is what answers pings: without a
+		// pong the peer's own keepalive sees no activity and drops a healthy connection
+		err := conn.WriteControl(websocket.PongMessage, []byte(appData), time.Now().Add(time.Second))
+		if err == websocket.ErrCloseSent {
+			return nil
+		} else if e, ok := err.(net.Error); ok && e.Timeout() {
+			return nil
+		}
+		return err
 	})
 
 	stop := make(chan struct{})
